@@ -239,6 +239,36 @@ theorem C18_repair_succeeds_univ (S' : Spec) (fuel' : Nat) (st' : St) (e' : Entr
     rw [hv] at this
     cases this
 
+/-- **Only the closure matters.**  `NoFault` speaks about every file; this is the same statement with the
+hypothesis restricted to a set `U` of files that contains the main model and is closed under imports
+(`NoFaultOn S' U`): files outside may be broken in any way.  (`C18_repair_succeeds` is the instance
+`NoFault.on`.) -/
+theorem C18_repair_succeeds_on (S' : Spec) (fuel' : Nat) (st' : St) (e' : Entry) (hwf : WF st')
+    (he : e'.Admissible S' st') (U : List File) (hU : ∀ h ∈ U, ∀ x, some x ∈ S'.calls h → x ∈ U)
+    (hS : NoFaultOn S' U) (hmU : e'.main ∈ U) (hn : U.length ≤ fuel')
+    (hv : ∀ g, Reach S' (base S' st').all.keys e'.main g → ∀ n ∈ S'.refs g, Visible S' (base S' st') g n) :
+    (e'.run S' fuel' st').2.1 = .ok :=
+  Entry.run_succeedsU S' U hU hS fuel' st' e' hmU (hwf.base S') he hn
+    (fun g hr n hn' => (C18_visible_iff S' _ g n).2 (hv g hr n hn'))
+
+/-- all hypotheses decidable: `closedB`, `noFaultB`, `unresolved … = []` on a list of files `U` -/
+theorem C18_repair_succeeds_dec (S' : Spec) (fuel' : Nat) (st' : St) (e' : Entry) (hwf : WF st')
+    (he : e'.Admissible S' st') (U : List File) (hU : closedB S' U = true) (hS : noFaultB S' U = true)
+    (hmU : e'.main ∈ U) (hn : U.length ≤ fuel') (hv : unresolved S' (base S' st') U = []) :
+    (e'.run S' fuel' st').2.1 = .ok := by
+  refine Entry.run_succeedsU S' U (closedB_spec hU) (noFaultB_spec hS) fuel' st' e' hmU (hwf.base S') he hn ?_
+  intro g hr n hn'
+  have hgU := Reach.mem_closed (closedB_spec hU) hmU hr
+  cases hvis : visible S' (base S' st') g n with
+  | true => rfl
+  | false =>
+    exfalso
+    have : (g, n) ∈ unresolved S' (base S' st') U := by
+      unfold unresolved
+      refine List.mem_flatMap.2 ⟨g, hgU, List.mem_map.2 ⟨n, List.mem_filter.2 ⟨hn', by simp [hvis]⟩, rfl⟩⟩
+    rw [hv] at this
+    cases this
+
 /-! ## non-vacuity: every phase failing in an imported file and in the main file -/
 
 /-- file 0 imports 1 and 2, file 1 imports 2 and 0; the fault sits in file `v` -/
@@ -322,5 +352,13 @@ example : (Entry.run (exF 9 0) 4 exSt' (.file 0)).2.1 = .ok :=
   C18_repair_succeeds_univ (exF 9 0) 4 exSt' (.file 0)
     (loadMain_wf (exF 3 0) 4 exSt 0 rfl (loadMain_wf (exF 9 0) 4 St.init 3 rfl WF.init (by decide)) (by decide))
     trivial exF_nofault [0, 1, 2] (by decide) (by decide) (by decide) (by decide)
+
+/-- file 3 still has a model processor fault (`exF 3 3`), but it is outside the closure of file 0: the
+load of file 0 succeeds, by `C18_repair_succeeds_dec` with every hypothesis decided -/
+example : (Entry.run (exF 3 3) 4 exSt' (.file 0)).2.1 = .ok :=
+  C18_repair_succeeds_dec (exF 3 3) 4 exSt' (.file 0)
+    (loadMain_wf (exF 3 0) 4 exSt 0 rfl (loadMain_wf (exF 9 0) 4 St.init 3 rfl WF.init (by decide)) (by decide))
+    trivial [0, 1, 2] (by decide) (by decide) (by decide) (by decide) (by decide)
+example : ¬ NoFault (exF 3 3) := fun h => by have := h.mod 3; revert this; decide
 
 end Repo
